@@ -112,6 +112,8 @@ class Frame:
         self.vars = {}
         self.ret = z3.BoolVal(False)
         self.loops = []
+        self.gotos = {}         # label -> guard of pending forward GOTOs
+        self.gotos_depth = {}
         self.result_name = None
 
 
@@ -163,6 +165,7 @@ class Interp:
         self.trips = []         # (guard, trip term) of every counted DO loop
         self.int_divs = []      # (numerator, denominator) of every integer division evaluated
         self.concrete_inputs = {}   # storage key / extent name -> concrete z3 value (replay mode)
+        self.allow_save_struct = False   # accept `type(x), save, target :: v` locals (PSyData handles)
         self.eguard = None      # element guard while an array-valued expression's element is evaluated
         self.gcur = None        # guard of the expression being evaluated (for conformance hypotheses)
         self._collect()
@@ -284,7 +287,8 @@ class Interp:
 
     # ------------------------------------------------------------ liveness
     def live(self, frame, guard):
-        dead = [frame.ret] + [l.exit for l in frame.loops] + [l.cycle for l in frame.loops]
+        dead = [frame.ret] + [l.exit for l in frame.loops] + [l.cycle for l in frame.loops] + \
+            list(frame.gotos.values())
         return AND(guard, NOT(OR(*dead)))
 
     # ------------------------------------------------------------ entry points
@@ -331,6 +335,8 @@ class Interp:
                     self.top_marks.append(len(self.trace))
                 else:
                     self.exec_block(part.content, frame, guard)
+                if frame.gotos:
+                    raise Unsupported("goto to a label that is not reached going forward")
 
     # ------------------------------------------------------------ declarations
     def _declare(self, node, frame, actuals, top, guard):
@@ -418,7 +424,7 @@ class Interp:
                 elif s == "OPTIONAL":
                     optional = True
                 elif s in ("SAVE", "TARGET", "PUBLIC", "PRIVATE", "CONTIGUOUS", "VALUE") \
-                        and frame.vars is self.globals:
+                        and (frame.vars is self.globals or (self.allow_save_struct and tname == "struct")):
                     pass
                 elif s in ("TARGET", "CONTIGUOUS"):
                     pass
@@ -608,6 +614,11 @@ class Interp:
             i += 1
 
     def exec_stmt(self, s, frame, guard):
+        lbl = getattr(getattr(s, "item", None), "label", None)
+        if lbl is not None and lbl in frame.gotos:
+            if frame.loops and frame.gotos_depth.get(lbl) != len(frame.loops):
+                raise Unsupported("goto across a loop boundary")
+            del frame.gotos[lbl]
         g = self.live(frame, guard)
         if z3.is_false(g):
             return
@@ -657,6 +668,19 @@ class Interp:
         if isinstance(s, (F.Print_Stmt, F.Write_Stmt)):
             return self.exec_print(s, frame, g)
         if isinstance(s, F.Continue_Stmt):
+            return
+        if isinstance(s, F.Goto_Stmt):
+            lbl = int(str(s.items[0]))
+            if frame.loops:
+                raise Unsupported("goto inside a loop")
+            frame.gotos[lbl] = OR(frame.gotos.get(lbl, z3.BoolVal(False)), g)
+            frame.gotos_depth[lbl] = len(frame.loops)
+            return
+        if isinstance(s, F.Stop_Stmt):
+            if self.depth != 0:
+                raise Unsupported("stop in a callee")
+            frame.ret = OR(frame.ret, g)
+            self.stopped = OR(getattr(self, "stopped", z3.BoolVal(False)), g)
             return
         if isinstance(s, (F.Allocate_Stmt, F.Deallocate_Stmt)):
             return self.exec_alloc(s, frame, g)
@@ -799,8 +823,10 @@ class Interp:
                     z3.Implies(self.live_noloop(frame, active, ctl), NOT(cond)))
             frame.loops.pop()
             return
+        if lc.items[1] is None and len(lc.items) > 3 and isinstance(lc.items[3], F.Forall_Header):
+            return self._exec_do_concurrent(lc.items[3], body, frame, g, ctl, loop_id)
         if lc.items[1] is None:
-            raise Unsupported("do concurrent / forever")
+            raise Unsupported("do forever")
         var, lims = lc.items[1]
         vb = self.lookup(lname(var), frame)
         if vb is None or vb.rank or vb.tname != "integer":
@@ -808,6 +834,42 @@ class Interp:
         lo = self.ev_scalar(lims[0], frame, g)
         hi = self.ev_scalar(lims[1], frame, g)
         st = self.ev_scalar(lims[2], frame, g) if len(lims) > 2 else z3.IntVal(1)
+        frame.loops.append(ctl)
+        self._run_counted(frame, g, vb, lo, hi, st, loop_id, ctl,
+                          lambda itg: self.exec_block(body, frame, itg))
+        frame.loops.pop()
+
+    def _exec_do_concurrent(self, header, body, frame, g, ctl, loop_id):
+        """DO CONCURRENT (i=l:u[:s], j=..., [mask]): all bounds are evaluated first; a conforming
+        body gives the same result in any iteration order, so the construct is executed as a loop
+        nest with the first index outermost."""
+        trips = header.items[0]
+        trips = list(trips.items) if isinstance(trips, F.Forall_Triplet_Spec_List) else [trips]
+        mask = header.items[1]
+        specs = []
+        for t in trips:
+            vb = self.lookup(lname(t.items[0]), frame)
+            if vb is None or vb.rank or vb.tname != "integer":
+                raise Unsupported("do concurrent index")
+            lo = self.ev_scalar(t.items[1], frame, g)
+            hi = self.ev_scalar(t.items[2], frame, g)
+            st = self.ev_scalar(t.items[3], frame, g) if t.items[3] is not None else z3.IntVal(1)
+            specs.append((vb, lo, hi, st))
+        frame.loops.append(ctl)
+
+        def level(d, itg):
+            if d == len(specs):
+                ctl.cycle = z3.BoolVal(False)
+                m = self.ev_scalar(mask, frame, itg) if mask is not None else z3.BoolVal(True)
+                self.exec_block(body, frame, AND(itg, m))
+                return
+            vb, lo, hi, st = specs[d]
+            self._run_counted(frame, itg, vb, lo, hi, st, (loop_id, d) if d else loop_id, ctl,
+                              lambda g2: level(d + 1, g2))
+        level(0, g)
+        frame.loops.pop()
+
+    def _run_counted(self, frame, g, vb, lo, hi, st, loop_id, ctl, run_body):
         stv = intval(st)
         if stv == 0:
             raise Unsupported("zero step")
@@ -829,7 +891,6 @@ class Interp:
         else:
             n = self.K
             self.bound_assumptions.append(z3.Implies(g, trip <= self.K))
-        frame.loops.append(ctl)
         for k in range(n):
             itg = AND(g, simp(z3.IntVal(k) < trip))
             itg = self.live_noloop(frame, itg, ctl)
@@ -840,12 +901,11 @@ class Interp:
             self.write(vb.key, vb.fixed, val, itg)
             self.iters.append((loop_id, k, val))
             self.ev_event(itg, "ITER", vb.key, ())
-            self.exec_block(body, frame, itg)
+            run_body(itg)
             self.iters.pop()
         ctl.cycle = z3.BoolVal(False)
         fin = self.live_noloop(frame, g, ctl)
         self.write(vb.key, vb.fixed, simp(lo + trip * st), fin)
-        frame.loops.pop()
 
     def live_noloop(self, frame, guard, ctl):
         """guard ∧ not returned ∧ no enclosing exit ∧ this loop not exited (cycle ignored)."""
